@@ -410,7 +410,7 @@ func (g *gen) fill(v reflect.Value, tg ftags) {
 			v.Set(reflect.Zero(t))
 			return
 		}
-		if g.loose && g.r.Chance(1, 6) && t.Elem() != rawT && t.Elem().Kind() != reflect.Ptr {
+		if g.loose && g.r.Chance(1, 6) && t.Elem() != rawT && t.Elem() != customT && t.Elem().Kind() != reflect.Ptr {
 			v.Set(reflect.Zero(t))
 			return
 		}
